@@ -50,6 +50,8 @@ inductive Mode where
   | str (s : SMode)
   | esc
   | rune
+  /-- `charStartMode`: directly behind `#\`, the next byte is taken whatever it is -/
+  | chrStart
   deriving DecidableEq, Repr
 
 /-- one constructor per `case` label of the byte switch in `reader.read`, plus the default branch -/
@@ -57,7 +59,7 @@ inductive Action where
   | skipNewline | skipByte | commentByte | commentDone | openParen | closeParen
   | tokenStart | tokenDone | doubleQuote | pipeByte | stringByte | stringDone | pipeDone
   | escByte | escOne | escUnicode4 | escUnicode8 | runeDigit | runeHexA | runeHexa
-  | sharpByte | charSlash | charDone | vectorByte | binaryByte | octByte | hexByte | intDone
+  | sharpByte | charSlash | charFirst | charDone | vectorByte | binaryByte | octByte | hexByte | intDone
   | sharpIntByte | sharpNumByte | radixByte | sharpComplex | arrayByte | swallowOpen
   | singleQuote | sharpQuote | backquote | comma | commaAt | blockStart | blockEnd0
   | bitVectorByte | bitVectorDone
@@ -75,6 +77,7 @@ structure Tables where
   rune : List Nat
   sharp : List Nat
   chr : List Nat
+  chrStart : List Nat
   int : List Nat
   sharpNum : List Nat
   mustArray : List Nat
@@ -107,6 +110,7 @@ def Tables.get (T : Tables) : Mode → List Nat
   | .str .symbol => T.symbol
   | .esc => T.esc
   | .rune => T.rune
+  | .chrStart => T.chrStart
 
 def decode (T : Tables) (code : Nat) : Action :=
   match T.acts.lookup code with
@@ -335,7 +339,18 @@ def pushInteger (c : Core) (tok : List Byte) : Core :=
   if 2 ≤ c.base ∧ c.base ≤ 36 then
     match parseSigned c.base tok with
     | some i => c.push (.int i)
-    | none => c.fail .parse
+    | none =>
+      -- a ratio such as #b1/11 or #16r-a/f: `strings.IndexByte(token, '/')` must be > 0
+      match splitSlash tok with
+      | some (n :: ns, d) =>
+        match parseSigned c.base (n :: ns), parseSigned c.base d with
+        | some nv, some dv =>
+          if 0 < dv then
+            let g := Nat.gcd nv.natAbs dv.natAbs
+            c.push (.ratio (nv / (g : Int)) (dv.natAbs / g))
+          else c.fail .parse
+        | _, _ => c.fail .parse
+      | _ => c.fail .parse
   else c.fail .unsupported
 
 /-- Go's `utf8.DecodeRune` on a non-empty slice: the first rune, U+FFFD for an invalid sequence -/
@@ -538,13 +553,14 @@ inductive PlainKind where
                               -- the token begins after this byte; `some (some n)`: base := n,
                               -- `some none`: base := sharpNum
   | startStr (m : SMode)      -- a string / |symbol| begins after this byte
+  | startChar                 -- `#\`: the character begins after this byte, whatever that byte is
   | raise                     -- the default branch
   | bad                       -- an action the model supports only in another mode class
 
 def kindOf : Action → PlainKind
   | .tokenStart => .startTok
   | .commaAt => .commaAt
-  | .charSlash => .startAfter .chr none
+  | .charSlash => .startChar
   | .binaryByte => .startAfter .int (some (some 2))
   | .octByte => .startAfter .int (some (some 8))
   | .hexByte => .startAfter .int (some (some 16))
@@ -557,7 +573,8 @@ def kindOf : Action → PlainKind
   | .sharpByte | .vectorByte | .sharpIntByte | .sharpNumByte | .sharpComplex | .arrayByte
   | .swallowOpen | .singleQuote | .sharpQuote | .backquote | .comma | .blockStart | .blockEnd0 => .core
   | .tokenDone | .stringByte | .stringDone | .pipeDone | .escByte | .escOne | .escUnicode4
-  | .escUnicode8 | .runeDigit | .runeHexA | .runeHexa | .charDone | .intDone | .bitVectorDone => .bad
+  | .escUnicode8 | .runeDigit | .runeHexA | .runeHexa | .charDone | .intDone | .bitVectorDone
+  | .charFirst => .bad
 
 def setBase (c : Core) : Option (Option Nat) → Core
   | none => c
@@ -618,6 +635,7 @@ def plainStep1 (T : Tables) (s : S1) (p : PMode) (b : Byte) : S1 :=
       | none => { s with mode := .tok .token, tok := [b] }
     | .startAfter t base => { s with core := setBase s.core base, mode := .tok t, tok := [] }
     | .startStr m => { s with core := { s.core with nextMode := m }, mode := .str m, sbuf := [] }
+    | .startChar => { s with mode := .chrStart, tok := [] }
     | .raise => s.fail .parse
     | .bad => s.fail .table
 
@@ -674,6 +692,15 @@ def runeStep1 (T : Tables) (s : S1) (b : Byte) : S1 :=
       else { s with core := { s.core with rn := rn, rcnt := s.core.rcnt - 1 } }
     | none => if a = .raise then s.fail .parse else s.fail .table
 
+/-- the byte directly behind `#\`: it is the first byte of the character token -/
+def chrStartStep1 (T : Tables) (s : S1) (b : Byte) : S1 :=
+  match lookup? T .chrStart b with
+  | none => s.fail .table
+  | some a =>
+    if a = .charFirst then { s with mode := .tok .chr, tok := [b] }
+    else if a = .raise then s.fail .parse
+    else s.fail .table
+
 /-- the `switch r.mode[b]` of `read` for one byte -/
 def body1 (T : Tables) (cfg : Cfg) (s : S1) (b : Byte) : S1 :=
   match s.mode with
@@ -682,6 +709,7 @@ def body1 (T : Tables) (cfg : Cfg) (s : S1) (b : Byte) : S1 :=
   | .str m => strStep1 T s m b
   | .esc => escStep1 T s b
   | .rune => runeStep1 T s b
+  | .chrStart => chrStartStep1 T s b
 
 def step1 (T : Tables) (cfg : Cfg) (s : S1) (b : Byte) : S1 :=
   match s.core.halt with
@@ -703,6 +731,7 @@ def finishCore (T : Tables) (cfg : Cfg) (c : Core) (m : Mode) (tok : List Byte) 
     | .str .symbol => c.fail .parse
     | .esc => c.fail .parse
     | .rune => c.fail .parse
+    | .chrStart => pushChar T c []   -- `case charStartMode, charMode: r.pushChar(src)`: the token is empty here
     | .plain .sharp => c.fail (.incomplete c.starts.length)
     | .plain .sharpNum => c.fail (.incomplete c.starts.length)
     | .plain .blockComment => c.fail (.incomplete c.starts.length)
@@ -774,6 +803,7 @@ def plainStep2 (T : Tables) (pos : Nat) (s : S2) (p : PMode) (b : Byte) : S2 :=
     | .startAfter t base => { s with core := setBase s.core base, mode := .tok t, tokenStart := pos + 1 }
     | .startStr m =>
       { s with core := { s.core with nextMode := m }, mode := .str m, tokenStart := pos + 1, buf := [] }
+    | .startChar => { s with mode := .chrStart, tokenStart := pos + 1 }
     | .raise => s.fail .parse
     | .bad => s.fail .table
 
@@ -833,6 +863,15 @@ def runeStep2 (T : Tables) (s : S2) (b : Byte) : S2 :=
       else { s with core := { s.core with rn := rn, rcnt := s.core.rcnt - 1 } }
     | none => if a = .raise then s.fail .parse else s.fail .table
 
+/-- `case charFirst: r.mode = charMode` — `tokenStart` was set by `charSlash` and is this byte -/
+def chrStartStep2 (T : Tables) (s : S2) (b : Byte) : S2 :=
+  match lookup? T .chrStart b with
+  | none => s.fail .table
+  | some a =>
+    if a = .charFirst then { s with mode := .tok .chr }
+    else if a = .raise then s.fail .parse
+    else s.fail .table
+
 def body2 (T : Tables) (cfg : Cfg) (src : List Byte) (pos : Nat) (s : S2) (b : Byte) : S2 :=
   match s.mode with
   | .plain p => plainStep2 T pos s p b
@@ -840,6 +879,7 @@ def body2 (T : Tables) (cfg : Cfg) (src : List Byte) (pos : Nat) (s : S2) (b : B
   | .str m => strStep2 T src pos s m b
   | .esc => escStep2 T s b
   | .rune => runeStep2 T s b
+  | .chrStart => chrStartStep2 T s b
 
 /-- one byte `b = src[pos]` of the current block `src`; `base` is `ReadStream`'s position
     accumulator, the number of bytes in the blocks already read -/
@@ -917,11 +957,12 @@ def placed (m : Mode) (a : Action) : Bool :=
   | .str _ => a = .stringByte || a = .stringDone || a = .pipeDone || a = .escByte || a = .raise
   | .esc => a = .escOne || a = .escUnicode4 || a = .escUnicode8 || a = .raise
   | .rune => a = .runeDigit || a = .runeHexA || a = .runeHexa || a = .raise
+  | .chrStart => a = .charFirst || a = .raise
 
 def allModes : List Mode :=
   [.plain .value, .plain .comment, .plain .sharp, .plain .sharpNum, .plain .mustArray,
    .plain .blockComment, .plain .blockEnd, .tok .token, .tok .chr, .tok .int, .tok .bitVec,
-   .str .string, .str .symbol, .esc, .rune]
+   .str .string, .str .symbol, .esc, .rune, .chrStart]
 
 /-- every table has 256 entries and every entry is an action the model covers in that mode,
     sitting on a byte for which the model's arithmetic is exact -/
